@@ -4,6 +4,7 @@
 From Coq Require Import List String Ascii ZArith Bool Arith Lia.
 From Verif Require Import Regex PyK PyK_strat Strategies StrategiesProofs.
 From VerifGen Require Import K5.
+From Verif Require Import K5Kernel.
 Import ListNotations.
 Open Scope string_scope.
 Open Scope nat_scope.
@@ -268,24 +269,11 @@ Theorem de_kernel_resolve S An T O :
     (enc_meta S) An T O = Ok (enc_result De (resolve S (keys_of An T O) De)).
 Proof. rewrite de_nested, nested_resolve, enc_ow_result. reflexivity. Qed.
 
-(* one name for "the translated kernel of direction d" *)
-Definition kernel (d: dir) (S: sources) (An T O: kv) : res kv :=
-  match d with
-  | Ser => get_overridden_serialization_method (enc_dialect (t_call S)) (enc_cfg S) (enc_dialect (t_dflt S)) (enc_meta S) An T O
-  | De => get_overridden_deserialization_method (enc_dialect (t_call S)) (enc_cfg S) (enc_dialect (t_dflt S)) (enc_meta S) An T O
-  end.
-
 Theorem kernel_resolve d S An T O :
   kernel d S An T O = Ok (enc_result d (resolve S (keys_of An T O) d)).
 Proof. destruct d; [apply ser_kernel_resolve|apply de_kernel_resolve]. Qed.
 
 (* ---- the first registry handler: what is emitted for the field ---- *)
-Definition codegen (d: dir) (S: sources) (An T O e: kv) : res kv :=
-  match d with
-  | Ser => pack_type_with_overridden_serialization (enc_dialect (t_call S)) (enc_cfg S) (enc_dialect (t_dflt S)) (enc_meta S) An T O e
-  | De => unpack_type_with_overridden_deserialization (enc_dialect (t_call S)) (enc_cfg S) (enc_dialect (t_dflt S)) (enc_meta S) An T O e
-  end.
-
 Theorem codegen_resolve d S An T O e :
   codegen d S An T O e = Ok (emit d (resolve S (keys_of An T O) d) e).
 Proof.
